@@ -116,47 +116,6 @@ theorem query_version_live {s : St} {id serial svc} {c : Conn} (hc : AL.find? id
 
 /-! ### the cross-reference invariant of the registry, for every history -/
 
-/-- the invariant in plain terms -/
-structure RegistryConsistent (b : Broker) : Prop where
-  cookie_names_object : ∀ c u, AL.find? c b.objUuids = some u → ∃ o, AL.find? u b.objs = some o ∧ o.cookie = c
-  object_is_registered : ∀ u o, AL.find? u b.objs = some o → AL.find? o.cookie b.objUuids = some u
-  owner_lists_object : ∀ u o, AL.find? u b.objs = some o → ∃ conn, AL.find? o.conn b.conns = some conn ∧ o.cookie ∈ conn.objects
-  listed_object_is_owned : ∀ id conn c, AL.find? id b.conns = some conn → c ∈ conn.objects →
-    ∃ u o, AL.find? c b.objUuids = some u ∧ AL.find? u b.objs = some o ∧ o.conn = id
-  cookie_names_service : ∀ sc oid svu info, AL.find? sc b.svcUuids = some (oid, svu, info) →
-    ∃ sv, AL.find? (oid.uuid, svu) b.svcs = some sv ∧ sv.cookie = sc ∧ sv.objCookie = oid.cookie
-  service_is_registered : ∀ obu svu sv, AL.find? (obu, svu) b.svcs = some sv →
-    ∃ info, AL.find? sv.cookie b.svcUuids = some (⟨obu, sv.objCookie⟩, svu, info)
-  service_has_live_object : ∀ sc oid svu info, AL.find? sc b.svcUuids = some (oid, svu, info) →
-    AL.find? oid.cookie b.objUuids = some oid.uuid ∧ ∃ o, AL.find? oid.uuid b.objs = some o ∧ sc ∈ o.svcs
-  listed_service_is_of_object : ∀ u o sc, AL.find? u b.objs = some o → sc ∈ o.svcs →
-    ∃ svu info, AL.find? sc b.svcUuids = some (⟨u, o.cookie⟩, svu, info)
-
-theorem RegistryConsistent.of_reg {b : Broker} {w : Work} {out : List Out} (h : Reg none none ⟨b, w, out⟩) : RegistryConsistent b := by
-  obtain ⟨h1, h2, h3, h4, h5, h6, h7, h8⟩ := h
-  refine ⟨h1, h2, ?_, ?_, ?_, ?_, ?_, h8⟩
-  · intro u o ho
-    rcases h3 u o ho with ⟨l, hl, hm⟩ | ⟨l, hl, _⟩
-    · simp only [ro] at hl
-      split at hl
-      · rename_i conn hc; simp at hl; subst hl; exact ⟨conn, hc, hm⟩
-      · simp at hl
-    · simp at hl
-  · intro id conn c hc hm
-    exact h4 id conn.objects c (ro_find hc) hm
-  · intro sc oid svu info hs
-    have := h5 sc oid svu info hs
-    simp only [sk, skl] at this
-    split at this
-    · rename_i sv hsv; simp at this; exact ⟨sv, hsv, this.1, this.2⟩
-    · simp at this
-  · intro obu svu sv hsv
-    exact h6 obu svu sv.cookie sv.objCookie (sk_find hsv)
-  · intro sc oid svu info hs
-    rcases h7 sc oid svu info hs with h | ⟨l, hl, _⟩
-    · exact h
-    · simp at hl
-
 /-- for ALL histories: between two events the registry's maps, the per-object service sets and the per-connection
 object sets agree with each other -/
 theorem registry_cross_references_all_histories (es : List Event) (b : Broker) (w : Work) (outs : List (List Out))
